@@ -17,9 +17,9 @@ variable {R : Value → Value → Prop}
 
 /-- entries match: `==` keys and related values -/
 def EMatch (R : Value → Value → Prop) (e e' : Key × Value) : Prop :=
-  Key.cmp e.1 e'.1 = .eq ∧ R e.2 e'.2
+  Key.cmpK e.1 e'.1 = .eq ∧ R e.2 e'.2
 
-theorem Key.cmp_eq_false_of_eq_false {a b : Key} (h : Key.eq a b = false) : Key.cmp a b ≠ .eq := by
+theorem Key.cmp_eq_false_of_eq_false {a b : Key} (h : Key.eq a b = false) : Key.cmpK a b ≠ .eq := by
   intro hc; rw [(Key.cmp_eq_iff a b).1 hc] at h; cases h
 
 /-- An injection between duplicate-free maps of the same size is onto. -/
@@ -50,8 +50,8 @@ theorem match_onto (a b : List (Key × Value)) (na : NoDupKeys a) (nb : NoDupKey
         · exfalso
           subst h
           -- e ~ y ~ x but x and e are different entries of a
-          have h1 : Key.cmp e.1 yk = .eq := hm.1
-          have h2 : Key.cmp xk yk = .eq := hxy.1
+          have h1 : Key.cmpK e.1 yk = .eq := hm.1
+          have h2 : Key.cmpK xk yk = .eq := hxy.1
           have h3 := Key.cmp_laws.eq_trans trivial trivial trivial h2
             (Key.cmp_laws.eq_symm trivial trivial h1)
           exact Key.cmp_eq_false_of_eq_false (na.1 e he) h3
@@ -68,7 +68,7 @@ theorem match_onto (a b : List (Key × Value)) (na : NoDupKeys a) (nb : NoDupKey
 
 /-- strictly increasing by key -/
 def KeySorted (l : List (Key × Value)) : Prop :=
-  l.Pairwise (fun e e' => Key.cmp e.1 e'.1 = .lt)
+  l.Pairwise (fun e e' => Key.cmpK e.1 e'.1 = .lt)
 
 /-- Two key-sorted entry lists that match each other both ways match position by position. -/
 theorem sorted_match (A B : List (Key × Value)) (sa : KeySorted A) (sb : KeySorted B)
@@ -94,10 +94,10 @@ theorem sorted_match (A B : List (Key × Value)) (sa : KeySorted A) (sb : KeySor
           rcases List.mem_cons.1 hxs with h' | h'
           · subst h'; exact hm'
           · exfalso
-            have l1 : Key.cmp y.1 ys.1 = .lt := sb.1 ys h
-            have l2 : Key.cmp x.1 xs.1 = .lt := sa.1 xs h'
+            have l1 : Key.cmpK y.1 ys.1 = .lt := sb.1 ys h
+            have l2 : Key.cmpK x.1 xs.1 = .lt := sa.1 xs h'
             -- x < xs ~ y < ys ~ x
-            have l3 : Key.cmp x.1 y.1 = .lt := by
+            have l3 : Key.cmpK x.1 y.1 = .lt := by
               rw [← L.congr_right (a := x.1) (b := xs.1) (c := y.1) trivial trivial trivial hm'.1]; exact l2
             have l4 := L.lt_trans trivial trivial trivial l3 l1
             rw [hm.1] at l4; cases l4
@@ -107,8 +107,8 @@ theorem sorted_match (A B : List (Key × Value)) (sa : KeySorted A) (sb : KeySor
         rcases List.mem_cons.1 he' with h | h
         · exfalso
           subst h
-          have l1 : Key.cmp x.1 e.1 = .lt := sa.1 e he
-          have l2 : Key.cmp x.1 e'.1 = .eq := hxy.1
+          have l1 : Key.cmpK x.1 e.1 = .lt := sa.1 e he
+          have l2 : Key.cmpK x.1 e'.1 = .eq := hxy.1
           rw [L.congr_right (a := x.1) (b := e.1) (c := e'.1) trivial trivial trivial hm.1, l2] at l1
           cases l1
         · exact ⟨e', h, hm⟩
@@ -117,8 +117,8 @@ theorem sorted_match (A B : List (Key × Value)) (sa : KeySorted A) (sb : KeySor
         rcases List.mem_cons.1 he with h | h
         · exfalso
           subst h
-          have l1 : Key.cmp y.1 e'.1 = .lt := sb.1 e' he'
-          have l2 : Key.cmp e.1 y.1 = .eq := hxy.1
+          have l1 : Key.cmpK y.1 e'.1 = .lt := sb.1 e' he'
+          have l2 : Key.cmpK e.1 y.1 = .eq := hxy.1
           rw [← L.congr_left (a := e.1) (b := y.1) (c := e'.1) trivial trivial trivial l2, hm.1] at l1
           cases l1
         · exact ⟨e, h, hm⟩
@@ -137,11 +137,11 @@ end matching
 
 /-- sorting a duplicate-free entry list by key gives a strictly increasing list -/
 theorem sortEntries_keySorted (es : List (Key × Value)) (nd : NoDupKeys es) :
-    KeySorted (sortEntries es) := by
-  have L : OrdLaws (fun _ : Key × Value => True) (fun x y => Key.cmp x.1 y.1) :=
+    KeySorted (sortEntriesK es) := by
+  have L : OrdLaws (fun _ : Key × Value => True) (fun x y => Key.cmpK x.1 y.1) :=
     Key.cmp_laws.comap (fun e : Key × Value => e.1)
   have s := sortBy_sorted L es (fun _ _ => trivial)
-  have nd' : NoDupKeys (sortEntries es) := nd.perm (sortBy_perm _ es).symm
+  have nd' : NoDupKeys (sortEntriesK es) := nd.perm (sortBy_perm _ es).symm
   rw [noDupKeys_iff_pairwise] at nd'
   unfold KeySorted
   unfold Sorted at s
@@ -149,12 +149,12 @@ theorem sortEntries_keySorted (es : List (Key × Value)) (nd : NoDupKeys es) :
   refine this.imp ?_
   intro a b ⟨h1, h2⟩
   have h3 := Key.cmp_eq_false_of_eq_false h2
-  cases hc : Key.cmp a.1 b.1 <;> simp_all
+  cases hc : Key.cmpK a.1 b.1 <;> simp_all
 
 theorem entryCmp_eq_iff (e e' : Key × Value) :
     entryCmp e e' = .eq ↔ EMatch (fun v w => Value.cmp v w = .eq) e e' := by
   simp only [entryCmp, EMatch]
-  cases Key.cmp e.1 e'.1 <;> simp
+  cases Key.cmpK e.1 e'.1 <;> simp
 
 namespace Value
 
@@ -182,17 +182,17 @@ theorem eqList_iff (xs ys : List Value) :
 /-- the map case, given the claim for the values stored in the left map -/
 theorem map_cmp_eq_iff (a b : List (Key × Value)) (na : NoDupKeys a) (nb : NoDupKeys b)
     (ih : ∀ e ∈ a, ∀ e' ∈ b, Value.cmp e.2 e'.2 = .eq ↔ eqV e.2 e'.2 = true) :
-    lexCmp entryCmp (sortEntries a) (sortEntries b) = .eq ↔
+    lexCmp entryCmp (sortEntriesK a) (sortEntriesK b) = .eq ↔
       (a.length == b.length && eqEntries a b) = true := by
-  have memA : ∀ e, e ∈ sortEntries a ↔ e ∈ a := fun e => mem_sortBy' _ e a
-  have memB : ∀ e, e ∈ sortEntries b ↔ e ∈ b := fun e => mem_sortBy' _ e b
+  have memA : ∀ e, e ∈ sortEntriesK a ↔ e ∈ a := fun e => mem_sortBy' _ e a
+  have memB : ∀ e, e ∈ sortEntriesK b ↔ e ∈ b := fun e => mem_sortBy' _ e b
   rw [lexCmp_eq_iff]
   simp only [entryCmp_eq_iff, Bool.and_eq_true, beq_iff_eq, eqEntries_iff]
   constructor
   · intro h
     refine ⟨?_, ?_⟩
     · have := h.length_eq
-      unfold sortEntries at this
+      unfold sortEntriesK at this
       rwa [length_sortBy, length_sortBy] at this
     · intro e he
       obtain ⟨e', he', hk, hv⟩ := forall₂_mem_left h e ((memA e).2 he)
